@@ -811,3 +811,32 @@ Proof.
     destruct r; try exact R. now apply IH.
 Qed.
 End RootStays.
+
+(* ================================================================== 6. declared widths ================== *)
+(* `#define BIT_WIDTH(number) (number > 1 ? (int)ceil(log2((double)number)) : 1)` gives the width of every
+   `unsigned x : n` of the emitted model.  With n bits for `number` distinct values the uses in the template are
+   right also at powers of two: `_event : BIT_WIDTH(literals + 1)` (literal indices 1..literals),
+   `source/parent : BIT_WIDTH(states)` (indices < states), `i, j, k : BIT_WIDTH(max(states, transitions) + 1)`
+   (the loops leave them at states resp. transitions).  ChartToPromela::declForRange(nativeOnly = false) writes
+   BIT_WIDTH(maxValue) for values 0..maxValue, which is one bit short exactly when maxValue is a power of two;
+   that call only ever receives the range (0, 0) (top-level names have no tracked range), so no emitted model
+   shows it. *)
+Definition bit_width (n : N) : N := if (n <=? 1)%N then 1%N else N.log2_up n.
+
+Lemma bit_width_holds n v : (v < n)%N -> (v < 2 ^ bit_width n)%N.
+Proof.
+  unfold bit_width. intros H. destruct (n <=? 1)%N eqn:E.
+  - apply N.leb_le in E. cbn. lia.
+  - apply N.leb_gt in E. destruct (N.log2_up_spec n E) as [_ U]. lia.
+Qed.
+
+Lemma event_width_enough literals idx : (idx <= literals)%N -> (idx < 2 ^ bit_width (literals + 1))%N.
+Proof. intros H. apply bit_width_holds. lia. Qed.
+Lemma index_width_enough states trans v :
+  (v <= N.max states trans)%N -> (v < 2 ^ bit_width (N.max states trans + 1))%N.
+Proof. intros H. apply bit_width_holds. lia. Qed.
+
+Lemma declforrange_width_refuted : exists maxValue, ~ (maxValue < 2 ^ bit_width maxValue)%N.
+Proof. exists 4%N. vm_compute. discriminate. Qed.
+Lemma declforrange_width_repaired maxValue v : (v <= maxValue)%N -> (v < 2 ^ bit_width (maxValue + 1))%N.
+Proof. intros H. apply bit_width_holds. lia. Qed.
